@@ -71,7 +71,13 @@ fn main() {
     "C10" => drive::c10::check(Ctx::new(id, &tier, "exploration"), replay),
     "C11" => drive::c11::check(Ctx::new(id, &tier, "exploration"), replay),
     "C12" => drive::c12::check(Ctx::new(id, &tier, "fault_enumeration"), replay),
-    "C13" => drive::c13::check(Ctx::new(id, &tier, "model_checking"), replay),
+    "C13" => {
+      // (a thread with a large stack: two of the prepared expressions recurse a thousand levels deep)
+      let (id, tier) = (id.to_string(), tier.to_string());
+      let h = std::thread::Builder::new().stack_size(2 << 30).spawn(move || drive::c13::check(Ctx::new(&id, &tier, "model_checking"), replay)).expect("thread");
+      let _ = h.join();
+      util::tool_error("the C13 driver ended without a verdict")
+    }
     "C14" => drive::c14::check(Ctx::new(id, &tier, "exploration"), replay),
     "C15" => drive::c15::check(Ctx::new(id, &tier, "exploration"), replay),
     "C16" => drive::c16::check(Ctx::new(id, &tier, "model_checking"), replay),
